@@ -206,10 +206,14 @@ def first_diff(impl, model, exp):
     return None, None
 
 
+def setup():
+    return build_model(PROP, "ExtractC17.v", os.path.join(ROOT, "ocaml/c17"), ["theories/Bitmask.v"])[0]
+
+
 def main(tier, seed, replay=None):
     t0 = time.time()
     proof = Proof(PROP)
-    exe, _ = build_model(PROP, "ExtractC17.v", os.path.join(ROOT, "ocaml/c17"), ["theories/Bitmask.v"])
+    exe = setup()
     rng = random.Random(seed)
     nhist = 1500 if tier == "quick" else 60000
     histories = []
